@@ -150,6 +150,11 @@ func (r *Reader) Scan() bool {
 		r.result.line++
 		// We do everything in byte buffers to avoid allocation.
 		line := r.s.Bytes()
+		// The scanner drops one CR before the LF. Drop any further
+		// ones too (files that went through CR-LF conversion twice):
+		// a configuration value ending in CR could not be written
+		// back out in a way that reads back the same.
+		line = bytes.TrimRight(line, "\r")
 		// Most lines are benchmark lines, and we can check
 		// for that very quickly, so start with that.
 		if bytes.HasPrefix(line, benchmarkPrefix) {
